@@ -371,6 +371,19 @@ pub fn mutate(w: &Walk, seed_img: &[u8], opn: usize, r: &mut Rng, fc: &FastCrc) 
             let open_end = xml[ps..].find('>')? + ps + 1;
             mk(replace_range(xml, open_end, pe, ""), "empty prototype".into())
         }
+        "xml-proto-huge" if r.chance(1, 3) => {
+            // the whole prototype replaced by tens of thousands of records that need no bits at all
+            let ps = xml.find("<prototype")?;
+            let open_end = xml[ps..].find('>')? + ps + 1;
+            let pe = xml[open_end..].find("</prototype>")? + open_end;
+            let n = *r.pick(&[65535usize, 65536, 65537, 70003]);
+            let mut body = String::with_capacity(n * 50);
+            body.push_str("<cartesianX type=\"Integer\" minimum=\"1\" maximum=\"1\"/><cartesianY type=\"Integer\" minimum=\"2\" maximum=\"2\"/><cartesianZ type=\"ScaledInteger\" minimum=\"3\" maximum=\"3\" scale=\"0.5\"/>\n");
+            for i in 0..n {
+                body.push_str(&format!("<x{} type=\"Integer\" minimum=\"5\" maximum=\"5\"/>\n", i));
+            }
+            mk(replace_range(xml, open_end, pe, &body), format!("prototype replaced by {} zero-width records", n + 3))
+        }
         "xml-proto-huge" => {
             let ps = xml.find("<prototype")?;
             let open_end = xml[ps..].find('>')? + ps + 1;
